@@ -235,6 +235,7 @@ class Formats:
 
         KEY_PREFIX = 'json__'
         RESULT_FILENAME = 'data.json'
+        METADATA_FILENAME = 'meta.json'          # (a cache class may name its metadata file differently)
 
         def save_result(self, storage, task, result):
             data_file = storage.file_handle(task.cache_key, self.RESULT_FILENAME, mode='w')
